@@ -846,7 +846,10 @@ theorem dec_adn (o : Opts) (pol : Pol) (m : Mach) (inp : Str) (K : Nat)
 /-- what the measure needs to know about the sub-tokenizer's registers -/
 structure CRT (cr : CharRefSt) : Prop where
   nbRun : ∀ x ∈ cr.nameBuf.getD [], runCh x = true
-  hexOk : ∀ c, cr.hexMarker = some c → c ≠ '&'
+  hexOk : ∀ c, cr.hexMarker = some c → c = 'x' ∨ c = 'X'
+
+theorem hex_ne_amp {c : Char} (h : c = 'x' ∨ c = 'X') : c ≠ '&' := by
+  rcases h with h | h <;> subst h <;> decide
 
 theorem CRT.fresh (b : Bool) : CRT { inAttr := b } := ⟨by simp, by simp⟩
 
@@ -967,9 +970,7 @@ theorem crStep_term (o : Opts) (m : Mach) (inp : Str) (cr : CharRefSt)
       split
       · rename_i hx
         rw [hd]
-        have hcx : c ≠ '&' := by
-          simp only [Bool.or_eq_true, decide_eq_true_eq] at hx
-          rcases hx with hx | hx <;> (subst hx; decide)
+        have hcx : c = 'x' ∨ c = 'X' := by simpa using hx
         refine ⟨⟨ht.nbRun, ?_⟩, ?_⟩
         · intro c' hc'; simp only [Option.some.injEq] at hc'; subst hc'; exact hcx
         · simp only [crW, crStash, crFlag, crRank, hst, List.length_cons, Option.isSome_some, ↓reduceIte]
@@ -1000,7 +1001,7 @@ theorem crStep_term (o : Opts) (m : Mach) (inp : Str) (cr : CharRefSt)
           cases hh : cr.hexMarker with
           | none => simp; omega
           | some y =>
-            simp only [List.cons_append, List.nil_append, tripF_false_cons _ _ (ht.hexOk y hh),
+            simp only [List.cons_append, List.nil_append, tripF_false_cons _ _ (hex_ne_amp (ht.hexOk y hh)),
               List.length_cons, Option.isSome_some, ↓reduceIte]
             omega
         · rename_i hsd
@@ -1104,7 +1105,7 @@ theorem crStep_term (o : Opts) (m : Mach) (inp : Str) (cr : CharRefSt)
 
 /-- invariant at step boundaries: the line-accounting invariant (which contains the no-panic
 invariant `Safe` and the look-ahead discipline) plus: `name_buf` holds alphanumerics/`;` only and
-the hex marker is not `&` -/
+the hex marker is `x`/`X` -/
 structure TInv (m : Mach) : Prop where
   linv : LInv m
   crt : ∀ cr, m.charRef = some cr → CRT cr
@@ -1971,6 +1972,1127 @@ theorem finish_total (o : Opts) (pol : Pol) (hp : NoPause pol) (m : Mach) (hi : 
       | cont =>
         simp only
         exact finish_tail_total o pol hp m2 i1 ht
+      | script => simp [Sig.isPause] at hpa
+      | indicator => simp [Sig.isPause] at hpa
+      | panic e => exact absurd rfl (hnp e)
+
+/-! ### `Tokenizer::end` for every sink: the tokenizer pauses only on reading `>`
+
+A machine that stopped (asked for more input, or paused) has no pending `reconsume`, and what the
+look-ahead machinery holds back contains neither `>` nor `&`; `end()` hands back only such text, so
+its final `run` never delivers a tag token: the sink is not consulted. -/
+
+/-- a character that can neither complete a tag nor start a character reference -/
+def plainCh (x : Char) : Prop := x ≠ '>' ∧ x ≠ '&'
+
+theorem runCh_plain {c : Char} (h : runCh c = true) : plainCh c :=
+  ⟨by intro hc; subst hc; revert h; decide, runCh_ne_amp h⟩
+
+theorem foldCh_plain {c : Char} (h : plainCh c) : plainCh (foldCh c) := by
+  unfold foldCh
+  split
+  · exact ⟨by decide, by decide⟩
+  · exact h
+
+/-- the characters a keyword can match are neither `>` nor `&` -/
+def PatPlain (eq : Char → Char → Bool) (pat : Str) : Prop :=
+  ∀ p ∈ pat, eq '>' p = false ∧ eq '&' p = false
+
+theorem patPlain_kw : PatPlain eqExact kwDashDash ∧ PatPlain eqCi kwDoctype ∧ PatPlain eqExact kwCdata ∧
+    PatPlain eqCi kwPublic ∧ PatPlain eqCi kwSystem := by
+  refine ⟨?_, ?_, ?_, ?_, ?_⟩ <;> (intro p hp; revert p; decide)
+
+theorem eatCmp_none_plainCh (eq : Char → Char → Bool) (all pat : Str) (hp : PatPlain eq pat)
+    (h : eatCmp eq all pat = none) : ∀ c ∈ all, plainCh c := by
+  induction all generalizing pat with
+  | nil => intro c hc; exact absurd hc List.not_mem_nil
+  | cons a t ih =>
+    cases pat with
+    | nil => simp [eatCmp] at h
+    | cons p ps =>
+      simp only [eatCmp] at h
+      split at h
+      · rename_i he
+        intro c hc
+        rcases List.mem_cons.mp hc with hc | hc
+        · subst hc
+          have := hp p (List.mem_cons_self ..)
+          constructor
+          · intro hx; subst hx; rw [this.1] at he; simp at he
+          · intro hx; subst hx; rw [this.2] at he; simp at he
+        · exact ih ps (fun q hq => hp q (List.mem_cons_of_mem _ hq)) h c hc
+      · simp at h
+
+/-- what a suspended `eat` has stashed matched a prefix of the keyword -/
+theorem eat_none_plainCh (m m1 : Mach) (inp i1 pat : Str) (eq : Char → Char → Bool) (hp : PatPlain eq pat)
+    (h : eat m inp pat eq = (none, m1, i1)) : ∀ c ∈ m1.tempBuf, plainCh c := by
+  rw [eat_eq_core] at h
+  unfold eatCore at h
+  split at h
+  · simp at h
+  · simp at h
+  · rename_i hc
+    split at h
+    · simp at h
+    · simp only [Prod.mk.injEq, true_and] at h
+      rw [← h.1]
+      simpa using eatCmp_none_plainCh eq _ pat hp hc
+
+/-- the text held back by the look-ahead machinery contains neither `>` nor `&` -/
+def SP (m : Mach) : Prop := m.charRef = none → ∀ x ∈ stash m, plainCh x
+
+theorem SP.of_nil {m : Mach} (h : stash m = []) : SP m := by
+  intro _ x hx; rw [h] at hx; exact absurd hx List.not_mem_nil
+
+theorem SP.of_some {m : Mach} {cr : CharRefSt} (h : m.charRef = some cr) : SP m := by
+  intro hx; rw [h] at hx; simp at hx
+
+theorem stash_subset (m : Mach) (hcr : m.charRef = none) : ∀ x ∈ stash m, x ∈ m.tempBuf := by
+  unfold stash; rw [hcr]; dsimp only
+  split
+  · exact fun _ h => h
+  · intro x hx; exact absurd hx List.not_mem_nil
+
+theorem SP.of_tempBuf {m : Mach} (h : ∀ x ∈ m.tempBuf, plainCh x) : SP m :=
+  fun hcr x hx => h x (stash_subset m hcr x hx)
+
+/-- the table pauses only on `>`, in branches that leave `reconsume` alone -/
+theorem transChar_pause (o : Opts) (pol : Pol) (m : Mach) (c : Char) :
+    (transChar o pol m c).2.isPause = true → c = '>' ∧ (transChar o pol m c).1.reconsume = m.reconsume := by
+  unfold transChar
+  split <;> (repeat' split) <;> simp_all [Sig.isPause]
+
+theorem transSet_pause (o : Opts) (pol : Pol) (m : Mach) (r : SetRes) :
+    (transSet o pol m r).2.isPause = true → r = .fromSet '>' := by
+  unfold transSet
+  split <;> (repeat' split) <;>
+    (have h2 := consumeCharRef_noPause m
+     simp_all [Sig.isPause])
+
+theorem stepMdo_sp (o : Opts) (pol : Pol) (m : Mach) (inp : Str) (K : Nat)
+    (h0 : EatSt .markupDeclarationOpen K m inp) (m' : Mach) (i' : Str)
+    (h : (stepMdo o pol m inp).pair? = some (m', i')) : SP m' := by
+  obtain ⟨q1, q2, q3, _, _⟩ := patPlain_kw
+  cases hres : stepMdo o pol m inp with
+  | cont mx ix =>
+    rw [hres] at h
+    simp only [R.pair?, Option.some.injEq, Prod.mk.injEq] at h
+    obtain ⟨e1, e2⟩ := h; subst e1 e2
+    obtain ⟨d1, _, d3, _⟩ := dec_mdo o pol m inp K h0 _ _ hres
+    exact SP.of_nil (stash_nil_of d1 (fun _ => d3))
+  | script mx ix => have := stepMdo_noPause o pol m inp; rw [hres] at this; simp [R.isPause] at this
+  | indicator mx ix => have := stepMdo_noPause o pol m inp; rw [hres] at this; simp [R.isPause] at this
+  | panic e => rw [hres] at h; simp [R.pair?] at h
+  | suspend mx ix =>
+    rw [hres] at h
+    simp only [R.pair?, Option.some.injEq, Prod.mk.injEq] at h
+    obtain ⟨e1, e2⟩ := h; subst e1 e2
+    unfold stepMdo at hres
+    cases h1 : eat m inp kwDashDash eqExact with
+    | mk b1 r1 =>
+      obtain ⟨m1, i1⟩ := r1
+      rw [h1] at hres
+      cases b1 with
+      | none =>
+        simp only [R.suspend.injEq] at hres
+        rw [← hres.1]; exact SP.of_tempBuf (eat_none_plainCh _ _ _ _ _ _ q1 h1)
+      | some b1 =>
+        cases b1 with
+        | true => simp at hres
+        | false =>
+          simp only at hres
+          cases h2 : eat m1 i1 kwDoctype eqCi with
+          | mk b2 r2 =>
+            obtain ⟨m2, i2⟩ := r2
+            rw [h2] at hres
+            cases b2 with
+            | none =>
+              simp only [R.suspend.injEq] at hres
+              rw [← hres.1]; exact SP.of_tempBuf (eat_none_plainCh _ _ _ _ _ _ q2 h2)
+            | some b2 =>
+              cases b2 with
+              | true => simp at hres
+              | false =>
+                simp only at hres
+                split at hres
+                · cases h3 : eat m2 i2 kwCdata eqExact with
+                  | mk b3 r3 =>
+                    obtain ⟨m3, i3⟩ := r3
+                    rw [h3] at hres
+                    cases b3 with
+                    | none =>
+                      simp only [R.suspend.injEq] at hres
+                      rw [← hres.1]; exact SP.of_tempBuf (eat_none_plainCh _ _ _ _ _ _ q3 h3)
+                    | some b3 => cases b3 <;> simp at hres
+                · simp at hres
+
+/-- `stepAdn`: every result keeps the stash plain; a pause happens only on reading `>` from
+stash ++ queue, with no `reconsume` left -/
+theorem stepAdn_view (o : Opts) (pol : Pol) (m : Mach) (inp : Str) (K : Nat)
+    (h0 : EatSt .afterDoctypeName K m inp) (m' : Mach) (i' : Str)
+    (h : (stepAdn o pol m inp).pair? = some (m', i')) :
+    SP m' ∧ ((stepAdn o pol m inp).isPause = true → m'.reconsume = false ∧ '>' ∈ m.tempBuf ++ inp) ∧
+    (∀ mx ix, stepAdn o pol m inp = .suspend mx ix → mx.reconsume = false) := by
+  obtain ⟨_, _, _, q4, q5⟩ := patPlain_kw
+  obtain ⟨_, _, _, pk4, pk5⟩ := patOk_kw
+  obtain ⟨_, _, _, n4, n5⟩ := kw_ne
+  unfold stepAdn at h ⊢
+  cases h1 : eat m inp kwPublic eqCi with
+  | mk b1 r1 =>
+    obtain ⟨m1, i1⟩ := r1
+    obtain ⟨s1, t1, _⟩ := eat_stage h0 _ _ pk4 n4 b1 m1 i1 h1
+    obtain ⟨a1, e1, _⟩ := eat_shape m inp _ _ h0.nrec h0.ok n4 b1 m1 i1 h1
+    rw [h1] at h
+    cases b1 with
+    | none =>
+      simp only [R.pair?, Option.some.injEq, Prod.mk.injEq] at h
+      obtain ⟨x1, x2⟩ := h; subst x1 x2
+      refine ⟨SP.of_tempBuf (eat_none_plainCh _ _ _ _ _ _ q4 h1), fun hp => by simp [R.isPause] at hp, ?_⟩
+      intro mx ix hx; simp only [R.suspend.injEq] at hx; rw [← hx.1]; exact s1.nrec
+    | some b1 =>
+      have ht1 := t1 (by simp)
+      rw [ht1, List.nil_append] at e1
+      cases b1 with
+      | true =>
+        simp only [R.pair?, Option.some.injEq, Prod.mk.injEq] at h
+        obtain ⟨x1, x2⟩ := h; subst x1 x2
+        exact ⟨SP.of_nil (stash_plain (by simp [s1.cr]) (by simp) (by simp)), fun hp => by simp [R.isPause] at hp,
+          fun mx ix hx => by simp at hx⟩
+      | false =>
+        simp only at h ⊢
+        cases h2 : eat m1 i1 kwSystem eqCi with
+        | mk b2 r2 =>
+          obtain ⟨m2, i2⟩ := r2
+          obtain ⟨s2, t2, _⟩ := eat_stage s1 _ _ pk5 n5 b2 m2 i2 h2
+          obtain ⟨a2, e2, _⟩ := eat_shape m1 i1 _ _ s1.nrec s1.ok n5 b2 m2 i2 h2
+          rw [h2] at h
+          cases b2 with
+          | none =>
+            simp only [R.pair?, Option.some.injEq, Prod.mk.injEq] at h
+            obtain ⟨x1, x2⟩ := h; subst x1 x2
+            refine ⟨SP.of_tempBuf (eat_none_plainCh _ _ _ _ _ _ q5 h2), fun hp => by simp [R.isPause] at hp, ?_⟩
+            intro mx ix hx; simp only [R.suspend.injEq] at hx; rw [← hx.1]; exact s2.nrec
+          | some b2 =>
+            have ht2 := t2 (by simp)
+            rw [ht1, ht2, List.nil_append, List.nil_append] at e2
+            have e12 : m.tempBuf ++ inp = (a1 ++ a2) ++ i2 := by rw [e1, e2, List.append_assoc]
+            cases b2 with
+            | true =>
+              simp only [R.pair?, Option.some.injEq, Prod.mk.injEq] at h
+              obtain ⟨x1, x2⟩ := h; subst x1 x2
+              exact ⟨SP.of_nil (stash_plain (by simp [s2.cr]) (by simp) (by simp)), fun hp => by simp [R.isPause] at hp,
+                fun mx ix hx => by simp at hx⟩
+            | false =>
+              simp only at h ⊢
+              cases hg : getChar o m2 i2 with
+              | mk oc r =>
+                obtain ⟨m3, i3⟩ := r
+                rw [hg] at h
+                cases oc with
+                | none =>
+                  obtain ⟨_, g2, g3⟩ := getChar_none o m2 m3 i2 i3 hg
+                  simp only [R.pair?, Option.some.injEq, Prod.mk.injEq] at h
+                  obtain ⟨x1, x2⟩ := h; subst x1 x2
+                  have hf : m3.tempBuf = [] ∧ m3.reconsume = false ∧ m3.charRef = none := by
+                    rcases g3 with ⟨_, g4⟩ | ⟨_, _, g4⟩ <;> subst g4
+                    · exact ⟨ht2, s2.nrec, s2.cr⟩
+                    · exact ⟨by simp [ht2], by simp [s2.nrec], by simp [s2.cr]⟩
+                  refine ⟨SP.of_nil (stash_nil_of hf.2.2 (fun _ => hf.1)), fun hp => by simp [R.isPause] at hp, ?_⟩
+                  intro mx ix hx; simp only [R.suspend.injEq] at hx; rw [← hx.1]; exact hf.2.1
+                | some c =>
+                  obtain ⟨f1, f2, f3, f4, _⟩ := getChar_fields o m2 m3 i2 i3 c hg
+                  obtain ⟨r1, r2⟩ := getChar_ri o m2 m3 i2 i3 c (by intro hx; rw [s2.nrec] at hx; simp at hx) hg
+                  simp only at h
+                  obtain ⟨x1, x2⟩ := ofSig_pair _ _ _ _ h
+                  subst x1 x2
+                  obtain ⟨_, _, _, a4, a5, _, _⟩ := afterChar_lines o pol m3 c (by rw [f4, s2.cr])
+                    (by intro _; rw [f2, ht2]) f3 r1 r2
+                  refine ⟨SP.of_nil a5, ?_, fun mx ix hx => absurd hx (ofSig_ne_suspend _ _ _ _)⟩
+                  intro hp
+                  rw [ofSig_isPause] at hp
+                  obtain ⟨p1, p2⟩ := transChar_pause o pol m3 c hp
+                  refine ⟨by rw [p2, f3], ?_⟩
+                  rcases getChar_shape o m2 m3 i2 _ c hg with ⟨g1, _⟩ | ⟨_, a, c0, g2, g3⟩
+                  · rw [s2.nrec] at g1; simp at g1
+                  · have hc0 : c0 = '>' := by
+                      rw [p1] at g3
+                      unfold foldCh at g3
+                      split at g3
+                      · exact absurd g3 (by decide)
+                      · exact g3.symm
+                    rw [e12, g2, hc0]; simp
+
+/-! ### every step leaves the stash plain; every stop leaves no `reconsume` -/
+
+theorem ofSig_stop (ms : Mach × Sig) (inp : Str) (m' : Mach) (i' : Str)
+    (h : (ofSig ms inp).pair? = some (m', i')) (hnc : ∀ mx ix, ofSig ms inp ≠ .cont mx ix) :
+    ms.2.isPause = true := by
+  unfold ofSig at h hnc
+  split at h
+  · rename_i hs; simp only [hs] at hnc; exact absurd rfl (hnc _ _)
+  · rename_i hs; simp [hs, Sig.isPause]
+  · rename_i hs; simp [hs, Sig.isPause]
+  · simp [R.pair?] at h
+
+theorem stepCharRef_stop (o : Opts) (m : Mach) (inp : Str) (cr : CharRefSt) (hi : TInv m)
+    (hcr : m.charRef = some cr) (m' : Mach) (i' : Str)
+    (h : (stepCharRef o m inp cr).pair? = some (m', i')) : SP m' ∧ m'.reconsume = false := by
+  obtain ⟨_, c2, _⟩ := hi.linv.cr cr hcr
+  have hstate := crStateOk_facts (hi.linv.safe.crState cr hcr)
+  unfold stepCharRef at h
+  cases hc : crStep o m inp cr with
+  | error x => rw [hc] at h; simp [R.pair?] at h
+  | ok v =>
+    obtain ⟨m1, i1, cr1, st⟩ := v
+    have hw := crStep_weaker o m m1 inp i1 cr cr1 st hc
+    have hr1 : m1.reconsume = false := by
+      cases hx : m1.reconsume with
+      | false => rfl
+      | true => have := hw.2.2.2.1 hx; rw [c2] at this; simp at this
+    rw [hc] at h
+    cases st with
+    | stuck =>
+      simp only [R.pair?, Option.some.injEq, Prod.mk.injEq] at h
+      rw [← h.1]
+      exact ⟨SP.of_some (cr := cr1) (by simp), by simpa using hr1⟩
+    | progress =>
+      simp only [R.pair?, Option.some.injEq, Prod.mk.injEq] at h
+      rw [← h.1]
+      exact ⟨SP.of_some (cr := cr1) (by simp), by simpa using hr1⟩
+    | done chars =>
+      obtain ⟨h1, _⟩ := ofSig_pair _ _ _ _ h
+      subst h1
+      have hp := processCharRef_fields m1 chars
+      have hst : ((processCharRef m1 chars).1.setCharRef none).state = m.state := by simp [hp.1, hw.1]
+      exact ⟨SP.of_nil (stash_plain (by simp) (by rw [hst]; exact hstate.1) (by rw [hst]; exact hstate.2.1)),
+        by simp only [setCharRef_reconsume, hp.2.2.2.1]; exact hr1⟩
+
+/-- **after every step** the look-ahead stash holds neither `>` nor `&` -/
+theorem step_sp (o : Opts) (pol : Pol) (m : Mach) (inp : Str) (hi : TInv m) (m' : Mach) (i' : Str)
+    (h : (step o pol m inp).pair? = some (m', i')) : SP m' := by
+  have hl := hi.linv
+  cases hcr : m.charRef with
+  | some cr =>
+    rw [step_kind_charRef o pol m inp cr hcr] at h
+    exact (stepCharRef_stop o m inp cr hi hcr m' i' h).1
+  | none =>
+    rcases step_charRef_after o pol m inp hcr m' i' h with hc' | ⟨b, hc'⟩
+    · cases hrk : readKind m.state with
+      | getChar =>
+        have hf := readKind_getChar_facts hrk
+        rw [step_getChar o pol m inp hcr hrk] at h
+        cases hgc : getChar o m inp with
+        | mk oc r =>
+          obtain ⟨m1, i1⟩ := r
+          rw [hgc] at h
+          cases oc with
+          | none =>
+            obtain ⟨_, _, g3⟩ := getChar_none o m m1 inp i1 hgc
+            simp only [contChar, R.pair?, Option.some.injEq, Prod.mk.injEq] at h
+            obtain ⟨h1, _⟩ := h
+            subst h1
+            apply SP.of_nil
+            rcases g3 with ⟨_, g4⟩ | ⟨_, _, g4⟩ <;> subst g4
+            · exact stash_plain hcr hf.1 hf.2.2
+            · exact stash_plain (by simp [hcr]) (by simpa using hf.1) (by simpa using hf.2.2)
+          | some c =>
+            obtain ⟨f1, f2, f3, f4, _⟩ := getChar_fields o m m1 inp i1 c hgc
+            obtain ⟨r1, r2⟩ := getChar_ri o m m1 inp i1 c hl.ri hgc
+            simp only [contChar] at h
+            obtain ⟨h1, _⟩ := ofSig_pair _ _ _ _ h
+            subst h1
+            obtain ⟨_, _, _, _, a5, _, _⟩ := afterChar_lines o pol m1 c (by rw [f4, hcr])
+              (by intro hraw; rw [f2]; rw [f1] at hraw; exact hl.nr hraw hf.1 hf.2.2) f3 r1 r2
+            exact SP.of_nil a5
+      | popExcept =>
+        -- the state after a `pop_except_from` step is never a look-ahead state
+        have hsf := readKind_state_facts (Or.inl hrk)
+        rw [step_popExcept o pol m inp hcr hrk] at h
+        cases hgc : popExceptFrom o (setOf m.state) m inp with
+        | mk oc r =>
+          obtain ⟨m1, i1⟩ := r
+          rw [hgc] at h
+          cases oc with
+          | none =>
+            obtain ⟨_, _, g3⟩ := popExceptFrom_none o _ m m1 inp i1 hgc
+            simp only [contSet, R.pair?, Option.some.injEq, Prod.mk.injEq] at h
+            obtain ⟨h1, _⟩ := h
+            subst h1
+            apply SP.of_nil
+            rcases g3 with ⟨_, g4⟩ | ⟨_, _, g4⟩ <;> subst g4
+            · exact stash_plain hcr hsf.1 hsf.2.1
+            · exact stash_plain (by simp [hcr]) (by simpa using hsf.1) (by simpa using hsf.2.1)
+          | some sr =>
+            obtain ⟨g1, _, _, _, _⟩ := popExceptFrom_fields o _ m m1 inp i1 sr hgc
+            simp only [contSet] at h
+            obtain ⟨h1, _⟩ := ofSig_pair _ _ _ _ h
+            subst h1
+            have hne := transSet_not_eat o pol m1 sr ⟨by rw [g1]; exact hsf.1, by rw [g1]; exact hsf.2.1⟩
+            exact SP.of_nil (stash_plain hc' hne.1 hne.2)
+      | dataSimd =>
+        have hsf := readKind_state_facts (Or.inr hrk)
+        rw [step_dataSimd o pol m inp hcr hrk] at h
+        cases hgc : readData o m inp with
+        | mk oc r =>
+          obtain ⟨m1, i1⟩ := r
+          rw [hgc] at h
+          cases oc with
+          | none =>
+            obtain ⟨_, _, g3⟩ := readData_none o m m1 inp i1 hgc
+            simp only [contSet, R.pair?, Option.some.injEq, Prod.mk.injEq] at h
+            obtain ⟨h1, _⟩ := h
+            subst h1
+            apply SP.of_nil
+            rcases g3 with ⟨_, g4⟩ | ⟨_, _, g4⟩ <;> subst g4
+            · exact stash_plain hcr hsf.1 hsf.2.1
+            · exact stash_plain (by simp [hcr]) (by simpa using hsf.1) (by simpa using hsf.2.1)
+          | some sr =>
+            obtain ⟨g1, _, _, _, _⟩ := readData_fields o m m1 inp i1 sr hgc
+            simp only [contSet] at h
+            obtain ⟨h1, _⟩ := ofSig_pair _ _ _ _ h
+            subst h1
+            have hne := transSet_not_eat o pol m1 sr ⟨by rw [g1]; exact hsf.1, by rw [g1]; exact hsf.2.1⟩
+            exact SP.of_nil (stash_plain hc' hne.1 hne.2)
+      | peekBav =>
+        have hst := readKind_bav hrk
+        rw [step_kind_bav o pol m inp hcr hrk] at h
+        obtain ⟨b1, _, _⟩ := stepBav_lines o pol m inp (hl.peekNoRecon (Or.inl hst)) m' i' h
+        have htb : m.tempBuf = [] := hl.nr (by rw [hst]; rfl) (by rw [hst]; simp) (by rw [hst]; simp)
+        exact SP.of_nil (stash_nil_of hc' (fun _ => by rw [b1, htb]))
+      | eatMdo =>
+        have hst := readKind_mdo hrk
+        rw [step_kind_mdo o pol m inp hcr hrk] at h
+        exact stepMdo_sp o pol m inp (Phi m inp)
+          ⟨hst, hcr, hl.peekNoRecon (Or.inr (Or.inl hst)), hl.eatOk (Or.inl hst),
+            by unfold Phi; rw [stash_eat hcr (Or.inl hst)]⟩ m' i' h
+      | eatAdn =>
+        have hst := readKind_adn hrk
+        rw [step_kind_adn o pol m inp hcr hrk] at h
+        exact (stepAdn_view o pol m inp (Phi m inp)
+          ⟨hst, hcr, hl.peekNoRecon (Or.inr (Or.inr hst)), hl.eatOk (Or.inr hst),
+            by unfold Phi; rw [stash_eat hcr (Or.inr hst)]⟩ m' i' h).1
+    · exact SP.of_some hc'
+
+/-- **a step that stops the loop** (asks for more input, or pauses for the sink) **leaves no pending
+`reconsume`**: a read that found the queue empty had none, and the table pauses only in branches
+that do not set it -/
+theorem step_stop_recon (o : Opts) (pol : Pol) (m : Mach) (inp : Str) (hi : TInv m) (m' : Mach) (i' : Str)
+    (h : (step o pol m inp).pair? = some (m', i')) (hnc : ∀ mx ix, step o pol m inp ≠ .cont mx ix) :
+    m'.reconsume = false := by
+  have hl := hi.linv
+  cases hcr : m.charRef with
+  | some cr =>
+    rw [step_kind_charRef o pol m inp cr hcr] at h
+    exact (stepCharRef_stop o m inp cr hi hcr m' i' h).2
+  | none =>
+    cases hrk : readKind m.state with
+    | getChar =>
+      rw [step_getChar o pol m inp hcr hrk] at h hnc
+      cases hgc : getChar o m inp with
+      | mk oc r =>
+        obtain ⟨m1, i1⟩ := r
+        rw [hgc] at h hnc
+        cases oc with
+        | none =>
+          obtain ⟨_, g2, g3⟩ := getChar_none o m m1 inp i1 hgc
+          simp only [contChar, R.pair?, Option.some.injEq, Prod.mk.injEq] at h
+          obtain ⟨h1, _⟩ := h
+          subst h1
+          rcases g3 with ⟨_, g4⟩ | ⟨_, _, g4⟩ <;> subst g4 <;> simp [g2]
+        | some c =>
+          obtain ⟨_, _, f3, _, _⟩ := getChar_fields o m m1 inp i1 c hgc
+          simp only [contChar] at h hnc
+          have hp := ofSig_stop _ _ _ _ h hnc
+          obtain ⟨h1, _⟩ := ofSig_pair _ _ _ _ h
+          subst h1
+          rw [(transChar_pause o pol m1 c hp).2, f3]
+    | popExcept =>
+      rw [step_popExcept o pol m inp hcr hrk] at h
+      cases hgc : popExceptFrom o (setOf m.state) m inp with
+      | mk oc r =>
+        obtain ⟨m1, i1⟩ := r
+        rw [hgc] at h
+        cases oc with
+        | none =>
+          obtain ⟨_, g2, g3⟩ := popExceptFrom_none o _ m m1 inp i1 hgc
+          simp only [contSet, R.pair?, Option.some.injEq, Prod.mk.injEq] at h
+          obtain ⟨h1, _⟩ := h
+          subst h1
+          rcases g3 with ⟨_, g4⟩ | ⟨_, _, g4⟩ <;> subst g4 <;> simp [g2]
+        | some sr =>
+          obtain ⟨_, _, f3, _, _⟩ := popExceptFrom_fields o _ m m1 inp i1 sr hgc
+          simp only [contSet] at h
+          obtain ⟨h1, _⟩ := ofSig_pair _ _ _ _ h
+          subst h1
+          rw [transSet_reconsume, f3]
+    | dataSimd =>
+      rw [step_dataSimd o pol m inp hcr hrk] at h
+      cases hgc : readData o m inp with
+      | mk oc r =>
+        obtain ⟨m1, i1⟩ := r
+        rw [hgc] at h
+        cases oc with
+        | none =>
+          obtain ⟨_, g2, g3⟩ := readData_none o m m1 inp i1 hgc
+          simp only [contSet, R.pair?, Option.some.injEq, Prod.mk.injEq] at h
+          obtain ⟨h1, _⟩ := h
+          subst h1
+          rcases g3 with ⟨_, g4⟩ | ⟨_, _, g4⟩ <;> subst g4 <;> simp [g2]
+        | some sr =>
+          obtain ⟨_, _, f3, _, _⟩ := readData_fields o m m1 inp i1 sr hgc
+          simp only [contSet] at h
+          obtain ⟨h1, _⟩ := ofSig_pair _ _ _ _ h
+          subst h1
+          rw [transSet_reconsume, f3]
+    | peekBav =>
+      have hst := readKind_bav hrk
+      rw [step_kind_bav o pol m inp hcr hrk] at h
+      exact (stepBav_lines o pol m inp (hl.peekNoRecon (Or.inl hst)) m' i' h).2.1
+    | eatMdo =>
+      have hst := readKind_mdo hrk
+      rw [step_kind_mdo o pol m inp hcr hrk] at h
+      exact (stepMdo_lines o pol m inp (Phi m inp)
+        ⟨hst, hcr, hl.peekNoRecon (Or.inr (Or.inl hst)), hl.eatOk (Or.inl hst),
+          by unfold Phi; rw [stash_eat hcr (Or.inl hst)]⟩ m' i' h).1
+    | eatAdn =>
+      have hst := readKind_adn hrk
+      rw [step_kind_adn o pol m inp hcr hrk] at h hnc
+      obtain ⟨_, v2, v3⟩ := stepAdn_view o pol m inp (Phi m inp)
+        ⟨hst, hcr, hl.peekNoRecon (Or.inr (Or.inr hst)), hl.eatOk (Or.inr hst),
+          by unfold Phi; rw [stash_eat hcr (Or.inr hst)]⟩ m' i' h
+      cases hres : stepAdn o pol m inp with
+      | cont mx ix => exact absurd hres (hnc mx ix)
+      | suspend mx ix =>
+        rw [hres] at h
+        simp only [R.pair?, Option.some.injEq, Prod.mk.injEq] at h
+        rw [← h.1]; exact v3 mx ix hres
+      | script mx ix => exact (v2 (by rw [hres]; rfl)).1
+      | indicator mx ix => exact (v2 (by rw [hres]; rfl)).1
+      | panic e => rw [hres] at h; simp [R.pair?] at h
+
+/-- a machine in which the tokenizer loop can have stopped: the invariant, no pending `reconsume`,
+and a stash without `>` / `&` -/
+structure Quiet (m : Mach) : Prop where
+  tinv : TInv m
+  nrec : m.reconsume = false
+  sp : SP m
+
+theorem quiet_fresh (m : Mach) (h1 : m.tempBuf = []) (h2 : m.reconsume = false) (h3 : m.charRef = none) :
+    Quiet m :=
+  ⟨tinv_fresh m h1 h2 h3, h2, SP.of_nil (stash_nil_of h3 (fun _ => h1))⟩
+
+theorem step_stop_quiet (o : Opts) (pol : Pol) (m : Mach) (inp : Str) (hi : TInv m) (m' : Mach) (i' : Str)
+    (h : (step o pol m inp).pair? = some (m', i')) (hnc : ∀ mx ix, step o pol m inp ≠ .cont mx ix) : Quiet m' :=
+  ⟨step_tinv o pol m inp hi m' i' h, step_stop_recon o pol m inp hi m' i' h hnc, step_sp o pol m inp hi m' i' h⟩
+
+/-- wherever `run` stops the machine is quiet -/
+theorem run_stop_quiet (o : Opts) (pol : Pol) (fuel : Nat) (m : Mach) (inp : Str) (hi : TInv m)
+    (m' : Mach) (i' : Str) (h : (run o pol fuel m inp).pair? = some (m', i')) : Quiet m' := by
+  induction fuel generalizing m inp with
+  | zero => simp [run, RunRes.pair?] at h
+  | succ n ih =>
+    unfold run at h
+    cases hs : step o pol m inp with
+    | cont m1 i1 =>
+      rw [hs] at h
+      exact ih m1 i1 (step_tinv o pol m inp hi m1 i1 (by rw [hs]; rfl)) h
+    | suspend m1 i1 =>
+      rw [hs] at h
+      simp only [RunRes.pair?, Option.some.injEq, Prod.mk.injEq] at h
+      obtain ⟨e1, e2⟩ := h; subst e1 e2
+      exact step_stop_quiet o pol m inp hi m1 i1 (by rw [hs]; rfl) (by rw [hs]; simp)
+    | script m1 i1 =>
+      rw [hs] at h
+      simp only [RunRes.pair?, Option.some.injEq, Prod.mk.injEq] at h
+      obtain ⟨e1, e2⟩ := h; subst e1 e2
+      exact step_stop_quiet o pol m inp hi m1 i1 (by rw [hs]; rfl) (by rw [hs]; simp)
+    | indicator m1 i1 =>
+      rw [hs] at h
+      simp only [RunRes.pair?, Option.some.injEq, Prod.mk.injEq] at h
+      obtain ⟨e1, e2⟩ := h; subst e1 e2
+      exact step_stop_quiet o pol m inp hi m1 i1 (by rw [hs]; rfl) (by rw [hs]; simp)
+    | panic e => rw [hs] at h; simp [RunRes.pair?] at h
+
+/-- **every way a `feed` can stop yields a quiet machine** -/
+theorem feed_stops_quiet (o : Opts) (pol : Pol) (m : Mach) (inp chunk : Str) (hq : Quiet m)
+    (m' : Mach) (i' : Str) (h : (feed o pol m inp chunk).pair? = some (m', i')) : Quiet m' := by
+  unfold feed at h
+  dsimp only at h
+  split at h
+  · simp only [RunRes.pair?, Option.some.injEq, Prod.mk.injEq] at h
+    rw [← h.1]; exact hq
+  · exact run_stop_quiet o pol _ _ _ (feedBom_tinv m _ hq.tinv) m' i' h
+
+theorem runsTo_quiet (o : Opts) (pol : Pol) {m : Mach} {inp : Str} {m' : Mach}
+    (hrun : RunsTo o pol m inp m') : TInv m → Quiet m' := by
+  induction hrun with
+  | @susp m0 i0 m0' hs =>
+    intro hi; exact step_stop_quiet o pol m0 i0 hi m0' [] (by rw [hs]; rfl) (by rw [hs]; simp)
+  | @cont m0 i0 mx ix m0' hs _ ih => intro hi; exact ih (step_tinv o pol m0 i0 hi mx ix (by rw [hs]; rfl))
+  | @script m0 i0 mx ix m0' hs _ ih => intro hi; exact ih (step_tinv o pol m0 i0 hi mx ix (by rw [hs]; rfl))
+  | @indicator m0 i0 mx ix m0' hs _ ih => intro hi; exact ih (step_tinv o pol m0 i0 hi mx ix (by rw [hs]; rfl))
+
+theorem session_quiet (o : Opts) (pol : Pol) {m : Mach} {cs : List Str} {mf : Mach}
+    (hs : Session o pol m cs mf) : Quiet m → Quiet mf := by
+  induction hs with
+  | nil => exact id
+  | cons hr _ ih => intro hq; exact ih (runsTo_quiet o pol hr hq.tinv)
+
+/-! ### the final `run` of `Tokenizer::end` never consults the sink -/
+
+/-- everything still to be read: the pending `reconsume`, the stash, the queue -/
+def pend (m : Mach) (inp : Str) : Str := rc m ++ (stash m ++ inp)
+
+/-- invariant of the final `run` of `end()`: no character reference in progress, and neither `>`
+nor `&` anywhere in what is still to be read -/
+structure EndInv (m : Mach) (inp : Str) : Prop where
+  tinv : TInv m
+  cr : m.charRef = none
+  plain : ∀ x ∈ pend m inp, plainCh x
+
+theorem pend_plain {m : Mach} {inp : Str} (h1 : m.reconsume = true → plainCh m.currentChar)
+    (h2 : ∀ x ∈ stash m, plainCh x) (h3 : ∀ x ∈ inp, plainCh x) : ∀ x ∈ pend m inp, plainCh x := by
+  intro x hx
+  unfold pend rc at hx
+  rcases List.mem_append.mp hx with hx | hx
+  · split at hx
+    · rename_i hr
+      simp only [List.mem_cons, List.not_mem_nil, or_false] at hx
+      subst hx; exact h1 hr
+    · exact absurd hx List.not_mem_nil
+  · rcases List.mem_append.mp hx with hx | hx
+    · exact h2 x hx
+    · exact h3 x hx
+
+theorem EndInv.inp {m : Mach} {inp : Str} (he : EndInv m inp) : ∀ x ∈ inp, plainCh x :=
+  fun x hx => he.plain x (by unfold pend; simp [hx])
+
+theorem EndInv.stash {m : Mach} {inp : Str} (he : EndInv m inp) : ∀ x ∈ stash m, plainCh x :=
+  fun x hx => he.plain x (by unfold pend; simp [hx])
+
+theorem EndInv.cc {m : Mach} {inp : Str} (he : EndInv m inp) (hr : m.reconsume = true) : plainCh m.currentChar :=
+  he.plain _ (by unfold pend; rw [rc_true hr]; simp)
+
+/-- a read of a `pop_except_from` state, with the character it reports -/
+def SetShapeX (m : Mach) (inp : Str) (r : SetRes) (i1 : Str) : Prop :=
+  (m.reconsume = true ∧ i1 = inp ∧ r = .fromSet m.currentChar) ∨
+  (m.reconsume = false ∧ ∃ a c0, inp = a ++ c0 :: i1 ∧ ∀ x, r = .fromSet x → x = foldCh c0)
+
+theorem popExceptFrom_shapeX (o : Opts) (S : List Char) (m m1 : Mach) (inp i1 : Str) (r : SetRes)
+    (h : popExceptFrom o S m inp = (some r, m1, i1)) : SetShapeX m inp r i1 := by
+  have viaGet : ∀ c, getChar o m inp = (some c, m1, i1) → r = .fromSet c → SetShapeX m inp r i1 := by
+    intro c hg hrc
+    rcases getChar_shape o m m1 inp i1 c hg with ⟨g1, g2, g3⟩ | ⟨g1, a, c0, g2, g3⟩
+    · exact Or.inl ⟨g1, g2, by rw [hrc, g3]⟩
+    · refine Or.inr ⟨g1, a, c0, g2, fun x hx => ?_⟩
+      rw [hrc] at hx
+      simp only [SetRes.fromSet.injEq] at hx
+      rw [← hx, g3]
+  unfold popExceptFrom at h
+  split at h
+  · cases hg : getChar o m inp with
+    | mk c rest =>
+      obtain ⟨m2, i2⟩ := rest
+      rw [hg] at h
+      cases c with
+      | none => simp at h
+      | some c =>
+        simp only [Option.map_some, Prod.mk.injEq, Option.some.injEq] at h
+        obtain ⟨h1, h2, h3⟩ := h
+        subst h2 h3
+        exact viaGet c hg h1.symm
+  · rename_i hs
+    have hs' : o.exactErrors = false ∧ m.reconsume = false ∧ m.ignoreLf = false := by
+      simpa [and_assoc] using hs
+    cases inp with
+    | nil => simp at h
+    | cons x xs =>
+      simp only at h
+      split at h
+      · have hg : getChar o m (x :: xs) = preprocess o m x xs := by
+          unfold getChar; simp [hs'.2.1]
+        cases hp : preprocess o m x xs with
+        | mk c rest =>
+          obtain ⟨m2, i2⟩ := rest
+          rw [hp] at h hg
+          cases c with
+          | none => simp at h
+          | some c =>
+            simp only [Option.map_some, Prod.mk.injEq, Option.some.injEq] at h
+            obtain ⟨h1, h2, h3⟩ := h
+            subst h2 h3
+            exact viaGet c hg h1.symm
+      · simp only [Prod.mk.injEq, Option.some.injEq] at h
+        obtain ⟨h1, _, h3⟩ := h
+        subst h3
+        exact Or.inr ⟨hs'.2.1, [], x, rfl, fun y hy => by rw [← h1] at hy; simp at hy⟩
+
+theorem readData_shapeX (o : Opts) (m m1 : Mach) (inp i1 : Str) (r : SetRes)
+    (h : readData o m inp = (some r, m1, i1)) : SetShapeX m inp r i1 := by
+  unfold readData at h
+  split at h
+  · exact popExceptFrom_shapeX o _ m m1 inp i1 r h
+  · rename_i hs
+    have hs' : o.exactErrors = false ∧ m.reconsume = false ∧ m.ignoreLf = false := by
+      simpa [and_assoc] using hs
+    cases inp with
+    | nil => simp at h
+    | cons x xs =>
+      simp only at h
+      split at h
+      · exact popExceptFrom_shapeX o _ m m1 (x :: xs) i1 r h
+      · simp only [Prod.mk.injEq, Option.some.injEq] at h
+        obtain ⟨h1, _, h3⟩ := h
+        subst h3
+        exact Or.inr ⟨hs'.2.1, [], x, rfl, fun y hy => by rw [← h1] at hy; simp at hy⟩
+
+/-- the character a `pop_except_from` read reports is plain when everything pending is -/
+theorem setShapeX_plain {m : Mach} {inp : Str} {r : SetRes} {i1 : Str} (he : EndInv m inp)
+    (h : SetShapeX m inp r i1) : (∀ x, r = .fromSet x → plainCh x) ∧ (∀ x ∈ i1, plainCh x) := by
+  rcases h with ⟨g1, g2, g3⟩ | ⟨_, a, c0, g2, g3⟩
+  · subst g2
+    refine ⟨fun x hx => ?_, he.inp⟩
+    rw [g3] at hx
+    simp only [SetRes.fromSet.injEq] at hx
+    rw [← hx]; exact he.cc g1
+  · refine ⟨fun x hx => ?_, fun x hx => he.inp x (by rw [g2]; simp [hx])⟩
+    rw [g3 x hx]
+    exact foldCh_plain (he.inp c0 (by rw [g2]; simp))
+
+theorem isPause_false_of {b : Bool} (h : b = true → False) : b = false := by
+  cases b
+  · rfl
+  · exact absurd rfl h
+
+theorem end_getChar (o : Opts) (pol : Pol) (m : Mach) (inp : Str) (he : EndInv m inp)
+    (hrk : readKind m.state = .getChar) :
+    (contChar o pol (getChar o m inp)).isPause = false ∧
+    ∀ m' i', contChar o pol (getChar o m inp) = .cont m' i' →
+      m'.charRef = none ∧ ∀ x ∈ pend m' i', plainCh x := by
+  have hl := he.tinv.linv
+  have hcr := he.cr
+  have hf := readKind_getChar_facts hrk
+  cases hgc : getChar o m inp with
+  | mk oc r =>
+    obtain ⟨m1, i1⟩ := r
+    cases oc with
+    | none => exact ⟨rfl, fun m' i' h => by simp [contChar] at h⟩
+    | some c =>
+      obtain ⟨f1, f2, f3, f4, _⟩ := getChar_fields o m m1 inp i1 c hgc
+      obtain ⟨r1, r2⟩ := getChar_ri o m m1 inp i1 c hl.ri hgc
+      have hcp : plainCh c ∧ ∀ x ∈ i1, plainCh x := by
+        rcases getChar_shape o m m1 inp i1 c hgc with ⟨g1, g2, g3⟩ | ⟨_, a, c0, g2, g3⟩
+        · subst g2; rw [g3]; exact ⟨he.cc g1, he.inp⟩
+        · rw [g3]
+          exact ⟨foldCh_plain (he.inp c0 (by rw [g2]; simp)), fun x hx => he.inp x (by rw [g2]; simp [hx])⟩
+      simp only [contChar]
+      constructor
+      · rw [ofSig_isPause]
+        exact isPause_false_of (fun hp => hcp.1.1 (transChar_pause o pol m1 c hp).1)
+      · intro m' i' h
+        obtain ⟨h1, h2⟩ := ofSig_cont _ _ _ _ h
+        subst h1 h2
+        obtain ⟨_, _, _, a4, a5, _, _⟩ := afterChar_lines o pol m1 c (by rw [f4, hcr])
+          (by intro hraw; rw [f2]; rw [f1] at hraw; exact hl.nr hraw hf.1 hf.2.2) f3 r1 r2
+        refine ⟨a4, pend_plain (fun _ => ?_) (by rw [a5]; intro x hx; exact absurd hx List.not_mem_nil) hcp.2⟩
+        rw [transChar_currentChar, r1]; exact hcp.1
+
+theorem end_set (o : Opts) (pol : Pol) (m : Mach) (inp : Str) (he : EndInv m inp)
+    (hk : readKind m.state = .popExcept ∨ readKind m.state = .dataSimd)
+    (rd : Option SetRes × Mach × Str)
+    (hsome : ∀ sr, rd.1 = some sr → ReadOk m rd.2.1 sr ∧ SetShapeX m inp sr rd.2.2) :
+    (contSet o pol rd).isPause = false ∧
+    ∀ m' i', contSet o pol rd = .cont m' i' → m'.charRef = none ∧ ∀ x ∈ pend m' i', plainCh x := by
+  have hcr := he.cr
+  have hsf := readKind_state_facts hk
+  obtain ⟨oc, m1, i1⟩ := rd
+  cases oc with
+  | none => exact ⟨rfl, fun m' i' h => by simp [contSet] at h⟩
+  | some sr =>
+    obtain ⟨⟨f1, f2, f3, f4, _, _⟩, hsh⟩ := hsome sr rfl
+    simp only at f1 f2 f3 f4 hsh
+    obtain ⟨p1, p2⟩ := setShapeX_plain he hsh
+    have hcr1 : m1.charRef = none := by rw [f4, hcr]
+    simp only [contSet]
+    constructor
+    · rw [ofSig_isPause]
+      exact isPause_false_of (fun hp => (p1 _ (transSet_pause o pol m1 sr hp)).1 rfl)
+    · intro m' i' h
+      obtain ⟨h1, h2⟩ := ofSig_cont _ _ _ _ h
+      subst h1 h2
+      have hr' : (transSet o pol m1 sr).1.reconsume = false := by rw [transSet_reconsume, f3]
+      have hne := transSet_not_eat o pol m1 sr ⟨by rw [f1]; exact hsf.1, by rw [f1]; exact hsf.2.1⟩
+      have hc' : (transSet o pol m1 sr).1.charRef = none := by
+        cases hx : (transSet o pol m1 sr).1.charRef with
+        | none => rfl
+        | some cr' =>
+          have := transSet_amp o pol m1 sr hcr1 (by rw [hx]; simp)
+          exact absurd rfl (p1 _ this).2
+      refine ⟨hc', pend_plain (fun hr => by rw [hr'] at hr; simp at hr) ?_ p2⟩
+      rw [stash_plain hc' hne.1 hne.2]
+      intro x hx; exact absurd hx List.not_mem_nil
+
+theorem stepBav_pause (o : Opts) (pol : Pol) (m : Mach) (inp : Str) (hr : m.reconsume = false)
+    (h : (stepBav o pol m inp).isPause = true) : '>' ∈ inp := by
+  unfold stepBav at h
+  cases inp with
+  | nil => simp [peek, hr, R.isPause] at h
+  | cons c rest =>
+    simp only [peek, hr, Bool.false_eq_true, ↓reduceIte, List.head?_cons] at h
+    generalize (if m.ignoreLf = true then m.setIgnoreLf false else m) = ma at h
+    split at h
+    · simp [R.isPause] at h
+    · split at h
+      · cases hg : getChar o ma (c :: rest) with
+        | mk oc r =>
+          obtain ⟨m2, i2⟩ := r
+          rw [hg] at h
+          cases oc <;> simp [R.isPause] at h
+      · split at h
+        · simp [R.isPause] at h
+        · split at h
+          · simp [R.isPause] at h
+          · split at h
+            · simp [R.isPause] at h
+            · split at h
+              · rename_i hgt
+                rw [hgt]; simp
+              · simp [R.isPause] at h
+
+theorem end_bav (o : Opts) (pol : Pol) (m : Mach) (inp : Str) (he : EndInv m inp)
+    (hs : m.state = .beforeAttributeValue) :
+    (stepBav o pol m inp).isPause = false ∧
+    ∀ m' i', stepBav o pol m inp = .cont m' i' → m'.charRef = none ∧ ∀ x ∈ pend m' i', plainCh x := by
+  have hl := he.tinv.linv
+  have hr := hl.peekNoRecon (Or.inl hs)
+  have htb : m.tempBuf = [] := hl.nr (by rw [hs]; rfl) (by rw [hs]; simp) (by rw [hs]; simp)
+  constructor
+  · exact isPause_false_of (fun hp => (he.inp _ (stepBav_pause o pol m inp hr hp)).1 rfl)
+  · intro m' i' h
+    have hp : (stepBav o pol m inp).pair? = some (m', i') := by rw [h]; rfl
+    obtain ⟨b1, b2, _⟩ := stepBav_lines o pol m inp hr m' i' hp
+    have hcr' : m'.charRef = none := by
+      rw [(stepBav_charRef o pol m inp).2 m' (pair_mach _ _ _ hp), he.cr]
+    obtain ⟨a, e1, _⟩ := stepBav_shape o pol m inp hr m' i' h
+    refine ⟨hcr', pend_plain (fun hx => by rw [b2] at hx; simp at hx) ?_
+      (fun x hx => he.inp x (by rw [e1]; simp [hx]))⟩
+    rw [stash_nil_of hcr' (fun _ => by rw [b1, htb])]
+    intro x hx; exact absurd hx List.not_mem_nil
+
+/-- `stepAdn` answering Continue: what is still to be read came from stash ++ queue -/
+theorem stepAdn_cont_pend (o : Opts) (pol : Pol) (m : Mach) (inp : Str) (K : Nat)
+    (h0 : EatSt .afterDoctypeName K m inp) (hpl : ∀ x ∈ m.tempBuf ++ inp, plainCh x) (m' : Mach) (i' : Str)
+    (h : stepAdn o pol m inp = .cont m' i') : m'.charRef = none ∧ ∀ x ∈ pend m' i', plainCh x := by
+  obtain ⟨_, _, _, pk4, pk5⟩ := patOk_kw
+  obtain ⟨_, _, _, n4, n5⟩ := kw_ne
+  have nil_plain : ∀ x ∈ ([] : Str), plainCh x := fun x hx => absurd hx List.not_mem_nil
+  unfold stepAdn at h
+  cases h1 : eat m inp kwPublic eqCi with
+  | mk b1 r1 =>
+    obtain ⟨m1, i1⟩ := r1
+    obtain ⟨s1, t1, _⟩ := eat_stage h0 _ _ pk4 n4 b1 m1 i1 h1
+    obtain ⟨a1, e1, _⟩ := eat_shape m inp _ _ h0.nrec h0.ok n4 b1 m1 i1 h1
+    rw [h1] at h
+    cases b1 with
+    | none => simp at h
+    | some b1 =>
+      have ht1 := t1 (by simp)
+      rw [ht1, List.nil_append] at e1
+      have hp1 : ∀ x ∈ i1, plainCh x := fun x hx => hpl x (by rw [e1]; simp [hx])
+      cases b1 with
+      | true =>
+        simp only [R.cont.injEq] at h
+        obtain ⟨x1, x2⟩ := h; subst x1 x2
+        have hc' : (to (.afterDoctypeKeyword .pub) m1).charRef = none := by simp [s1.cr]
+        exact ⟨hc', pend_plain (fun hx => by simp [s1.nrec] at hx)
+          (by rw [stash_plain hc' (by simp) (by simp)]; exact nil_plain) hp1⟩
+      | false =>
+        simp only at h
+        cases h2 : eat m1 i1 kwSystem eqCi with
+        | mk b2 r2 =>
+          obtain ⟨m2, i2⟩ := r2
+          obtain ⟨s2, t2, _⟩ := eat_stage s1 _ _ pk5 n5 b2 m2 i2 h2
+          obtain ⟨a2, e2, _⟩ := eat_shape m1 i1 _ _ s1.nrec s1.ok n5 b2 m2 i2 h2
+          rw [h2] at h
+          cases b2 with
+          | none => simp at h
+          | some b2 =>
+            have ht2 := t2 (by simp)
+            rw [ht1, ht2, List.nil_append, List.nil_append] at e2
+            have hp2 : ∀ x ∈ i2, plainCh x := fun x hx => hp1 x (by rw [e2]; simp [hx])
+            cases b2 with
+            | true =>
+              simp only [R.cont.injEq] at h
+              obtain ⟨x1, x2⟩ := h; subst x1 x2
+              have hc' : (to (.afterDoctypeKeyword .sys) m2).charRef = none := by simp [s2.cr]
+              exact ⟨hc', pend_plain (fun hx => by simp [s2.nrec] at hx)
+                (by rw [stash_plain hc' (by simp) (by simp)]; exact nil_plain) hp2⟩
+            | false =>
+              simp only at h
+              cases hg : getChar o m2 i2 with
+              | mk oc r =>
+                obtain ⟨m3, i3⟩ := r
+                rw [hg] at h
+                cases oc with
+                | none => simp at h
+                | some c =>
+                  obtain ⟨f1, f2, f3, f4, _⟩ := getChar_fields o m2 m3 i2 i3 c hg
+                  obtain ⟨r1, r2⟩ := getChar_ri o m2 m3 i2 i3 c (by intro hx; rw [s2.nrec] at hx; simp at hx) hg
+                  simp only at h
+                  obtain ⟨x1, x2⟩ := ofSig_cont _ _ _ _ h
+                  subst x1 x2
+                  obtain ⟨_, _, _, a4, a5, _, _⟩ := afterChar_lines o pol m3 c (by rw [f4, s2.cr])
+                    (by intro _; rw [f2, ht2]) f3 r1 r2
+                  rcases getChar_shape o m2 m3 i2 _ c hg with ⟨g1, _⟩ | ⟨_, a, c0, g2, g3⟩
+                  · rw [s2.nrec] at g1; simp at g1
+                  · refine ⟨a4, pend_plain (fun _ => ?_) (by rw [a5]; exact nil_plain)
+                      (fun x hx => hp2 x (by rw [g2]; simp [hx]))⟩
+                    rw [transChar_currentChar, r1, g3]
+                    exact foldCh_plain (hp2 c0 (by rw [g2]; simp))
+
+/-- **under the invariant of the final run no step pauses, and the invariant is kept** -/
+theorem step_end (o : Opts) (pol : Pol) (m : Mach) (inp : Str) (he : EndInv m inp) :
+    (step o pol m inp).isPause = false ∧ ∀ m' i', step o pol m inp = .cont m' i' → EndInv m' i' := by
+  have hl := he.tinv.linv
+  have hcr := he.cr
+  have mk : ((step o pol m inp).isPause = false ∧
+      ∀ m' i', step o pol m inp = .cont m' i' → m'.charRef = none ∧ ∀ x ∈ pend m' i', plainCh x) →
+      ((step o pol m inp).isPause = false ∧ ∀ m' i', step o pol m inp = .cont m' i' → EndInv m' i') := by
+    intro ⟨h1, h2⟩
+    refine ⟨h1, fun m' i' h => ?_⟩
+    obtain ⟨q1, q2⟩ := h2 m' i' h
+    exact ⟨step_tinv o pol m inp he.tinv m' i' (by rw [h]; rfl), q1, q2⟩
+  apply mk
+  cases hrk : readKind m.state with
+  | getChar =>
+    rw [step_getChar o pol m inp hcr hrk]
+    exact end_getChar o pol m inp he hrk
+  | popExcept =>
+    rw [step_popExcept o pol m inp hcr hrk]
+    refine end_set o pol m inp he (Or.inl hrk) _ ?_
+    intro sr hsr
+    cases hp : popExceptFrom o (setOf m.state) m inp with
+    | mk a b =>
+      obtain ⟨m1, i1⟩ := b
+      rw [hp] at hsr; simp only at hsr; subst hsr
+      exact ⟨popExceptFrom_fields o _ m m1 inp i1 sr hp, popExceptFrom_shapeX o _ m m1 inp i1 sr hp⟩
+  | dataSimd =>
+    rw [step_dataSimd o pol m inp hcr hrk]
+    refine end_set o pol m inp he (Or.inr hrk) _ ?_
+    intro sr hsr
+    cases hp : readData o m inp with
+    | mk a b =>
+      obtain ⟨m1, i1⟩ := b
+      rw [hp] at hsr; simp only at hsr; subst hsr
+      exact ⟨readData_fields o m m1 inp i1 sr hp, readData_shapeX o m m1 inp i1 sr hp⟩
+  | peekBav =>
+    rw [step_kind_bav o pol m inp hcr hrk]
+    exact end_bav o pol m inp he (readKind_bav hrk)
+  | eatMdo =>
+    have hst := readKind_mdo hrk
+    rw [step_kind_mdo o pol m inp hcr hrk]
+    have h0 : EatSt .markupDeclarationOpen (Phi m inp) m inp :=
+      ⟨hst, hcr, hl.peekNoRecon (Or.inr (Or.inl hst)), hl.eatOk (Or.inl hst),
+        by unfold Phi; rw [stash_eat hcr (Or.inl hst)]⟩
+    refine ⟨stepMdo_noPause o pol m inp, fun m' i' h => ?_⟩
+    obtain ⟨d1, d2, d3, d4, d5, a, d6, _⟩ := dec_mdo o pol m inp _ h0 m' i' h
+    refine ⟨d1, pend_plain (fun hx => by rw [d2] at hx; simp at hx) ?_ (fun x hx => ?_)⟩
+    · rw [stash_plain d1 d4 d5]; intro x hx; exact absurd hx List.not_mem_nil
+    · have : x ∈ stash m ++ inp := by rw [stash_eat hcr (Or.inl hst), d6]; simp [hx]
+      rcases List.mem_append.mp this with hx' | hx'
+      · exact he.stash x hx'
+      · exact he.inp x hx'
+  | eatAdn =>
+    have hst := readKind_adn hrk
+    rw [step_kind_adn o pol m inp hcr hrk]
+    have h0 : EatSt .afterDoctypeName (Phi m inp) m inp :=
+      ⟨hst, hcr, hl.peekNoRecon (Or.inr (Or.inr hst)), hl.eatOk (Or.inr hst),
+        by unfold Phi; rw [stash_eat hcr (Or.inr hst)]⟩
+    have hpl : ∀ x ∈ m.tempBuf ++ inp, plainCh x := by
+      intro x hx
+      rw [← stash_eat hcr (Or.inr hst)] at hx
+      rcases List.mem_append.mp hx with hx' | hx'
+      · exact he.stash x hx'
+      · exact he.inp x hx'
+    constructor
+    · apply isPause_false_of
+      intro hp
+      cases hres : stepAdn o pol m inp with
+      | cont mx ix => rw [hres] at hp; simp [R.isPause] at hp
+      | suspend mx ix => rw [hres] at hp; simp [R.isPause] at hp
+      | panic e => rw [hres] at hp; simp [R.isPause] at hp
+      | script mx ix =>
+        exact (hpl _ ((stepAdn_view o pol m inp _ h0 mx ix (by rw [hres]; rfl)).2.1 hp).2).1 rfl
+      | indicator mx ix =>
+        exact (hpl _ ((stepAdn_view o pol m inp _ h0 mx ix (by rw [hres]; rfl)).2.1 hp).2).1 rfl
+    · exact fun m' i' h => stepAdn_cont_pend o pol m inp _ h0 hpl m' i' h
+
+/-- the final `run` of `end()` never answers Script / EncodingIndicator, whatever the sink -/
+theorem run_end (o : Opts) (pol : Pol) (fuel : Nat) (m : Mach) (inp : Str) (he : EndInv m inp) :
+    (∀ m' i', run o pol fuel m inp ≠ .script m' i') ∧ (∀ m' i', run o pol fuel m inp ≠ .indicator m' i') := by
+  induction fuel generalizing m inp with
+  | zero => simp [run]
+  | succ n ih =>
+    unfold run
+    obtain ⟨hs0, hnext⟩ := step_end o pol m inp he
+    cases hs : step o pol m inp with
+    | cont m1 i1 => exact ih m1 i1 (hnext m1 i1 hs)
+    | suspend m1 i1 => simp
+    | script m1 i1 => rw [hs] at hs0; simp [R.isPause] at hs0
+    | indicator m1 i1 => rw [hs] at hs0; simp [R.isPause] at hs0
+    | panic e => simp
+
+/-! ### `end()` from a quiet machine, for every sink -/
+
+theorem hex_plain {c : Char} (h : c = 'x' ∨ c = 'X') : plainCh c := by
+  rcases h with h | h <;> subst h <;> exact ⟨by decide, by decide⟩
+
+/-- what a round of the sub-tokenizer's `end_of_file` puts back into the (empty) queue contains
+neither `>` nor `&` -/
+theorem crEofOnce_back (o : Opts) (m : Mach) (cr : CharRefSt) (ht : CRT cr)
+    (m1 : Mach) (i1 : Str) (cr1 : CharRefSt) (st : CRStatus)
+    (h : crEofOnce o m [] cr = .ok (m1, i1, cr1, st)) : ∀ x ∈ i1, plainCh x := by
+  have nil_plain : ∀ x ∈ ([] : Str), plainCh x := fun x hx => absurd hx List.not_mem_nil
+  have fin : ∀ mm, finishNumericStatus o mm [] cr = .ok (m1, i1, cr1, st) → ∀ x ∈ i1, plainCh x := by
+    intro mm hf
+    obtain ⟨mx, c, hok⟩ := finishNumericStatus_ok o mm [] cr
+    rw [hok] at hf
+    simp only [Except.ok.injEq, Prod.mk.injEq] at hf
+    rw [← hf.2.1]; exact nil_plain
+  unfold crEofOnce at h
+  cases hst : cr.state with
+  | begin =>
+    simp only [hst, Except.ok.injEq, Prod.mk.injEq] at h
+    rw [← h.2.1]; exact nil_plain
+  | octothorpe =>
+    simp only [hst, Except.ok.injEq, Prod.mk.injEq] at h
+    rw [← h.2.1]
+    intro x hx
+    simp only [List.mem_cons, List.not_mem_nil, or_false] at hx
+    subst hx; exact ⟨by decide, by decide⟩
+  | numeric base =>
+    simp only [hst] at h
+    split at h
+    · unfold unconsumeNumeric at h
+      simp only [Except.ok.injEq, Prod.mk.injEq] at h
+      rw [← h.2.1]
+      intro x hx
+      simp only [List.append_nil, List.mem_cons] at hx
+      rcases hx with hx | hx
+      · subst hx; exact ⟨by decide, by decide⟩
+      · cases hh : cr.hexMarker with
+        | none => rw [hh] at hx; simp at hx
+        | some y =>
+          rw [hh] at hx
+          simp only [List.mem_cons, List.not_mem_nil, or_false] at hx
+          subst hx; exact hex_plain (ht.hexOk _ hh)
+    · exact fin _ h
+  | numericSemicolon =>
+    simp only [hst] at h
+    exact fin _ h
+  | bogusName =>
+    simp only [hst] at h
+    cases hnb : cr.nameBuf with
+    | none => rw [hnb] at h; simp at h
+    | some nb =>
+      rw [hnb] at h
+      simp only [Except.ok.injEq, Prod.mk.injEq] at h
+      rw [← h.2.1]
+      intro x hx
+      simp only [List.append_nil] at hx
+      exact runCh_plain (ht.nbRun x (by rw [hnb]; exact hx))
+  | named =>
+    simp only [hst] at h
+    cases hnb : cr.nameBuf with
+    | none => unfold finishNamed at h; rw [hnb] at h; simp at h
+    | some nb =>
+      rcases finishNamed_shape o m [] cr none nb m1 i1 cr1 st hnb h with ⟨chars, k, _, e2⟩ | ⟨_, _, _, c, e4, _⟩
+      · rw [e2]
+        intro x hx
+        simp only [List.append_nil] at hx
+        exact runCh_plain (ht.nbRun x (by rw [hnb]; exact List.mem_of_mem_drop hx))
+      · simp at e4
+
+theorem crEof_back (o : Opts) (m : Mach) (cr : CharRefSt) (hil : m.ignoreLf = false) (hr : m.reconsume = false)
+    (hc : CRLines cr) (ht : CRT cr) (m1 : Mach) (i1 chars : Str) (h : crEof o m [] cr = .ok (m1, i1, chars)) :
+    ∀ x ∈ i1, plainCh x := by
+  rw [crEof_eq] at h
+  cases hon : crEofOnce o m [] cr with
+  | error e => rw [hon] at h; simp at h
+  | ok v =>
+    obtain ⟨mx, ix, crx, st⟩ := v
+    obtain ⟨⟨cs, hcs⟩, _⟩ := crEofOnce_lines o m cr hil hr hc mx ix crx st hon
+    subst hcs
+    have hb := crEofOnce_back o m cr ht mx ix crx _ hon
+    rw [hon] at h
+    simp only [Except.ok.injEq, Prod.mk.injEq] at h
+    rw [← h.2.1]; exact hb
+
+theorem pend_setAtEof (m : Mach) (b : Bool) (inp : Str) : pend (m.setAtEof b) inp = pend m inp := by
+  unfold pend rc
+  rw [stash_congr (m := m) (by simp) (by simp) (by simp)]
+  simp
+
+theorem EndInv.setAtEof {m : Mach} {inp : Str} (he : EndInv m inp) (b : Bool) : EndInv (m.setAtEof b) inp :=
+  ⟨he.tinv.setAtEof b, by simpa using he.cr, by rw [pend_setAtEof]; exact he.plain⟩
+
+/-- the part of `Tokenizer::end` after the character-reference hand-back, for any sink -/
+theorem finish_tail_end (o : Opts) (pol : Pol) (m : Mach) (inp : Str) (he : EndInv m inp) :
+    ∃ mf, (match run o pol (fuelFor (m.setAtEof true) inp) (m.setAtEof true) inp with
+          | .done m inp => if !inp.isEmpty then .error "assertion failed: input.is_empty()" else eofLoop o 8 m
+          | .script _ _ | .indicator _ _ =>
+            .error "assertion failed: matches!(self.run(&input), TokenizerResult::Done)"
+          | .panic e => .error e
+          | .outOfFuel => .error "run out of fuel") = Except.ok mf := by
+  have he' := he.setAtEof true
+  have hi' := he'.tinv
+  cases hrun : run o pol (fuelFor (m.setAtEof true) inp) (m.setAtEof true) inp with
+  | done m4 i4 =>
+    have := run_done_nil o pol _ _ _ hi' m4 i4 hrun
+    subst this
+    simp only [List.isEmpty_nil, Bool.not_true, Bool.false_eq_true, ↓reduceIte]
+    exact eofLoop_total o m4
+  | script m4 i4 => exact absurd hrun ((run_end o pol _ _ _ he').1 m4 i4)
+  | indicator m4 i4 => exact absurd hrun ((run_end o pol _ _ _ he').2 m4 i4)
+  | panic e => exact absurd hrun (run_no_panic o pol _ _ _ hi' e)
+  | outOfFuel => exact absurd hrun (run_terminates o pol _ _ _ hi' (mu_lt_fuelFor _ _))
+
+/-- **`Tokenizer::end` completes from every quiet machine, whatever the sink answers to tags**: it
+never delivers a tag token, so the sink is not consulted -/
+theorem finish_end_total (o : Opts) (pol : Pol) (m : Mach) (hq : Quiet m) : ∃ mf, finish o pol m = .ok mf := by
+  have hi := hq.tinv
+  unfold finish
+  cases hcr : m.charRef with
+  | none =>
+    simp only
+    refine finish_tail_end o pol m [] ⟨hi, hcr, pend_plain (fun hx => ?_) (hq.sp hcr)
+      (fun x hx => absurd hx List.not_mem_nil)⟩
+    rw [hq.nrec] at hx; simp at hx
+  | some cr =>
+    obtain ⟨c1, c2, c3⟩ := hi.linv.cr cr hcr
+    have hstate := crStateOk_facts (hi.linv.safe.crState cr hcr)
+    obtain ⟨m1, i1, chars, hce⟩ := crEof_ok o m cr c1 c2 c3 (hi.linv.safe.crRegs cr hcr)
+    obtain ⟨ht, hnp⟩ := finish_charRef_inv o m cr hi.linv hcr m1 i1 chars hce
+    obtain ⟨_, _, l3, _, l5, _⟩ := crEof_lines o m cr c1 c2 c3 m1 i1 chars hce
+    have hback := crEof_back o m cr c1 c2 c3 (hi.crt cr hcr) m1 i1 chars hce
+    have hpa := processCharRef_noPause (m1.setCharRef none) chars
+    have hp := processCharRef_fields (m1.setCharRef none) chars
+    have hpc0 := processCharRef_charRef (m1.setCharRef none) chars
+    simp only [hce]
+    cases hpc : processCharRef (m1.setCharRef none) chars with
+    | mk m2 sig =>
+      rw [hpc] at ht hnp hpa hp hpc0
+      simp only at hp hpc0
+      cases sig with
+      | cont =>
+        simp only
+        have hcr2 : m2.charRef = none := by simpa using hpc0
+        have hst2 : m2.state = m.state := by rw [hp.1]; simp only [setCharRef_state]; exact l5
+        have hrec2 : m2.reconsume = false := by rw [hp.2.2.2.1]; simpa using l3
+        refine finish_tail_end o pol m2 i1 ⟨ht, hcr2, pend_plain (fun hx => ?_) ?_ hback⟩
+        · rw [hrec2] at hx; simp at hx
+        · rw [stash_plain hcr2 (by rw [hst2]; exact hstate.1) (by rw [hst2]; exact hstate.2.1)]
+          intro x hx; exact absurd hx List.not_mem_nil
       | script => simp [Sig.isPause] at hpa
       | indicator => simp [Sig.isPause] at hpa
       | panic e => exact absurd rfl (hnp e)
